@@ -351,6 +351,9 @@ func randBindParams(r *rand.Rand) map[string]interface{} {
 	return out
 }
 
+// texts whose first operand reached by the parser is a placeholder without a name
+var emptyPlaceholderTexts = []string{"$", "$\"\"", "$ + 1", "a = $", "a = $\"\"", "f($)", "f(1, $\"\")", "-$", "($)", "a =~ $", "a + $ + $p", "$$", "$ $p", "a AND $ = 1"}
+
 func genBindExpr(r *rand.Rand, n int, emit func(args ...string)) {
 	// every template x every kind once
 	kinds := []interface{}{"x", "' OR 1=1 --", 1.5, int64(3), true, map[string]interface{}{"ident": "a b"}, map[string]interface{}{"regex": "a/b"}, map[string]interface{}{"duration": "10m"}, map[string]interface{}{"duration": int64(90000000000)}, map[string]interface{}{"float": int64(2)}, int32(7), nil}
@@ -364,10 +367,19 @@ func genBindExpr(r *rand.Rand, n int, emit func(args ...string)) {
 	for _, t := range []string{"$", "$ p", "$\"a b\"", "$1", "$\"p\"", "$p$", "$$p", "a = $P", "$select", "$\"un", "$'p'"} {
 		emit(encStr(t), encParams(map[string]interface{}{"p": "v", "a b": int64(1), "1": true, "select": 2.5, "P": "upper"}), encLower(t), "r")
 	}
+	// an empty placeholder never binds, whatever is stored under the empty name
+	for _, t := range emptyPlaceholderTexts {
+		for _, k := range kinds {
+			emit(encStr(t), encParams(map[string]interface{}{"": k, "p": k}), encLower(t), "r")
+		}
+	}
 	for i := 0; i < n; i++ {
 		if i%3 == 0 {
 			text := randExprText(r, 0, r.Intn(6))
-			emit(encStr(text), encParams(randParams(r, []string{"p", "q", "r", "a b", "1"})), encLower(text), "r")
+			if r.Intn(5) == 0 {
+				text += pick(r, []string{" + $", " = $\"\"", " AND $ = 1", " =~ $", " + f($)", " + $ + $p", " * $\"\" "})
+			}
+			emit(encStr(text), encParams(randParams(r, []string{"p", "q", "r", "a b", "1", ""})), encLower(text), "r")
 			continue
 		}
 		t := pick(r, bindTemplates)
@@ -495,6 +507,12 @@ func propBindExpr(args []string) string {
 			return fmt.Sprintf("%q with %v: %v, but with every string value replaced by \"v\": %v", text, params, errOrOK(perr), errOrOK(perr2))
 		case perr == nil && blankStrings(sexpExpr(e)) != blankStrings(sexpExpr(e2)):
 			return fmt.Sprintf("%q: the tree depends on the string value: %s vs %s", text, sexpExpr(e), sexpExpr(e2))
+		}
+	}
+	// P3: an empty placeholder is an error under every parameter map
+	for _, t := range emptyPlaceholderTexts {
+		if text == t && perr == nil {
+			return fmt.Sprintf("%q with %v parses (%s) although its placeholder has no name", text, params, sexpExpr(e))
 		}
 	}
 	// P2: placeholder = written literal (fixed template family)
